@@ -333,6 +333,34 @@ pub fn drive(a: &Args) {
             mo.emit(mergelist_record(&[third, ivs.clone(), other]));
         }
     }
+    // long partitions (binary-search depth grows with the length): every interval queried at its own boundaries
+    let maxlen = a.sz(40, 130);
+    for n in 1..=maxlen {
+        for shape in 0..3u32 {
+            let ivs: Vec<Iv> = (0..n as u32)
+                .map(|k| match shape {
+                    0 => (10 * k + 5, 10 * k + 8),
+                    1 => (10 * k, 10 * k + 9),
+                    _ => (3 * k + 1, 3 * k + 1),
+                })
+                .collect();
+            let mut sets = vec![];
+            let mut chars = vec![0, MAX_CHAR];
+            for &(lo, hi) in &ivs {
+                for s in [(lo, lo), (lo, hi), (hi, hi), (lo, hi + 1), (lo.saturating_sub(1), lo), ((lo + 1).min(hi), hi), (hi + 1, hi + 1)] {
+                    sets.push(s);
+                }
+                for x in [lo.saturating_sub(1), lo, hi, hi + 1] {
+                    chars.push(x);
+                }
+            }
+            chars.sort();
+            chars.dedup();
+            let route = ["push", "from_list", "list"][(n % 3) as usize];
+            let route = if route == "from_list" { "list" } else { route };
+            out.emit(run_behaviour(route, &ivs, &chars, &sets));
+        }
+    }
     // full-alphabet scans of class_of_char: run-length encoded answers for a sample of partitions
     let nscan = a.sz(6, 200);
     let mut so = Out::create(&a.out, "part_scans.ndjson");
